@@ -274,6 +274,10 @@ def mk_wcs(w):
     wcs.wcs.crval = [float(Fraction(v)) for v in w['crval']]
     wcs.wcs.cdelt = [float(Fraction(v)) for v in w['cdelt']]
     wcs.wcs.pc = [[float(Fraction(v)) for v in row] for row in w['pc']]
+    if w.get('radesys'):
+        wcs.wcs.radesys = w['radesys']
+        if w.get('equinox'):
+            wcs.wcs.equinox = float(w['equinox'])
     d = w.get('dist')
     if d:
         # distortions that astropy applies in mode 'all' only: SIP polynomials, or a lookup table ("distortion paper"
@@ -300,10 +304,42 @@ def mk_wcs(w):
     return wcs
 
 
-def rt_tol(w, mode):
-    """round-trip tolerance in pixels: 1e-6, or 1e-3 where astropy inverts a distortion iteratively
-    (all_world2pix, default tolerance 1e-4 px)."""
-    return Fraction(1, 10 ** 3) if (w.get('dist') and mode == 'all') else Fraction(1, 10 ** 6)
+def rt_tol(w, mode, F=None):
+    """round-trip tolerance in pixels: 1e-6, but not finer than 1e-8 arcsec on the sky (double-precision degrees near 360
+    resolve 2e-10 arcsec; astropy's frame round trips among ICRS/FK5/Galactic are good to 1e-9 arcsec), resp. 2e-4 arcsec when
+    an FK4 frame is involved (astropy's FK4 e-term transformations only invert to 5e-5 arcsec: measured, external component);
+    1e-3 px where astropy inverts a distortion iteratively (all_world2pix, default tolerance 1e-4 px)."""
+    scale = min(abs(Fraction(v)) for v in w['cdelt']) * 3600          # arcsec / pixel
+    fk4 = w.get('radesys') == 'FK4' or (F is not None and F['name'] == 'fk4')
+    return max(Fraction(1, 10 ** 3) if (w.get('dist') and mode == 'all') else Fraction(1, 10 ** 6),
+               (Fraction(2, 10 ** 4) if fk4 else Fraction(1, 10 ** 8)) / scale)
+
+
+FRAMES = [{'name': 'icrs'}, {'name': 'fk5'}, {'name': 'fk5', 'equinox': 'J1975.0'}, {'name': 'fk5', 'equinox': 'B1950.0'},
+          {'name': 'fk4'}, {'name': 'fk4', 'equinox': 'B1975.0'}, {'name': 'galactic'}]
+
+
+def mk_frame(f):
+    from astropy.coordinates import FK4, FK5, ICRS, Galactic
+    if f['name'] == 'icrs':
+        return ICRS()
+    if f['name'] == 'galactic':
+        return Galactic()
+    cls = FK5 if f['name'] == 'fk5' else FK4
+    return cls(equinox=f['equinox']) if f.get('equinox') else cls()
+
+
+def via_frame(w_src, lon, lat, F, w_tgt):
+    """sky positions (lon, lat in the celestial frame of the WCS w_src) that are handed over expressed in the frame F:
+    their coordinates in the celestial frame of the WCS w_tgt, by astropy's frame transformations (external component)."""
+    import astropy.units as u
+    from astropy.coordinates import SkyCoord
+    from astropy.wcs.utils import wcs_to_celestial_frame
+    sc = SkyCoord(np.asarray(lon, float) * u.deg, np.asarray(lat, float) * u.deg, frame=wcs_to_celestial_frame(mk_wcs(w_src)))
+    if F is not None:
+        sc = sc.transform_to(mk_frame(F))
+    sc = sc.transform_to(wcs_to_celestial_frame(mk_wcs(w_tgt)))
+    return np.atleast_1d(sc.data.lon.deg), np.atleast_1d(sc.data.lat.deg)
 
 
 def latfirst(w):
@@ -633,7 +669,8 @@ class Check(PropertyCheck):
         proj = rng.choice(['TAN', 'TAN', 'SIN', 'CAR', 'ZEA', 'STG'])
         fam = rng.choice([('RA--', 'DEC-'), ('RA--', 'DEC-'), ('GLON', 'GLAT')])
         ctype = [f'{fam[0]}-{proj}', f'{fam[1]}-{proj}']
-        scale = rng.choice([1e-5, 2.7e-4, 1e-3, 0.01, 0.1]) * rng.uniform(0.5, 2)
+        scale = rng.choice([1e-5, 2.7e-4, 1e-3, 0.01, 0.1, 2.8e-7, 2.8e-6, 5.6e-5]) * rng.uniform(0.5, 2)
+        radesys = rng.choice([None, None, ('ICRS', None), ('FK5', 2000.0), ('FK5', 1975.0), ('FK4', 1950.0)]) if fam[0] == 'RA--' else None
         sx = rng.choice([-1, -1, 1])
         sy = rng.choice([1, 1, -1])
         th = rng.choice([0, 0, math.pi / 2, rng.uniform(-math.pi, math.pi)])
@@ -654,13 +691,14 @@ class Check(PropertyCheck):
                 lat = min(max(lat, -80.0), 80.0)
                 crval = [frac(Fraction(lon)), frac(Fraction(lat))]
             dist = {'kind': kind, 'amp': [frac(Fraction(rng.randint(2, 8), 8) * rng.choice([1, -1])) for _ in range(4)]}
+        extra = {'radesys': radesys[0], 'equinox': radesys[1]} if radesys else {}
         if dist:
-            return {'ctype': ctype, 'dist': dist,
+            return {'ctype': ctype, 'dist': dist, **extra,
                     'crpix': [frac(Fraction(rng.randint(-400, 400), 4)), frac(Fraction(rng.randint(-400, 400), 4))],
                     'crval': crval,
                     'cdelt': [frac(Fraction(sx * scale)), frac(Fraction(sy * scale * rng.choice([1, 1, 0.7])))],
                     'pc': [[frac(Fraction(v)) for v in row] for row in pc]}
-        return {'ctype': ctype,
+        return {'ctype': ctype, **extra,
                 'crpix': [frac(Fraction(rng.randint(-400, 400), 4)), frac(Fraction(rng.randint(-400, 400), 4))],
                 'crval': crval,
                 'cdelt': [frac(Fraction(sx * scale)), frac(Fraction(sy * scale * rng.choice([1, 1, 0.7])))],
@@ -777,7 +815,10 @@ class Check(PropertyCheck):
                 dt = p[k]['dtype']
                 p[k]['data'] = [frac((Fraction(v) + c0) if dt == 'float' else Fraction(int(Fraction(v)) + round(c0)))
                                 for v in p[k]['data']]
-            cases.append({'kind': 'sky', 'p': p, 'wcs': w, 'origin': rng.choice([0, 1]), 'mode': rng.choice(['all', 'wcs'])})
+            c_ = {'kind': 'sky', 'p': p, 'wcs': w, 'origin': rng.choice([0, 1]), 'mode': rng.choice(['all', 'wcs'])}
+            if rng.random() < 0.45:
+                c_['sky_frame'] = rng.choice(FRAMES)      # the sky positions are handed to from_sky in another frame
+            cases.append(c_)
         # ---- iteration protocol: overlapping iterators of the same object
         cases.extend(self._iter_cases(rng, quick))
         # ---- histories: the same object through several calls
@@ -884,8 +925,12 @@ class Check(PropertyCheck):
                     ncopies += 1
             elif r < 0.5 or not steps:
                 steps.append({'op': 'to_sky', 'wcs': rng.choice([0, 0, 0, 1]), 'origin': rng.choice([0, 1]), 'mode': rng.choice(['all', 'wcs'])})
+                if rng.random() < 0.35:
+                    steps[-1]['frame'] = rng.choice(FRAMES)
             elif r < 0.62 and any(st['op'] == 'to_sky' for st in steps):
                 steps.append({'op': 'from_sky', 'wcs': rng.choice([0, 0, 1]), 'origin': rng.choice([0, 1]), 'mode': rng.choice(['all', 'wcs'])})
+                if rng.random() < 0.5:
+                    steps[-1]['frame'] = rng.choice(FRAMES)
             elif r < 0.8 and editable:
                 k = rng.choice(['x', 'y'])
                 c0 = Fraction(w0['crpix'][cref(w0, k)])
@@ -1002,10 +1047,12 @@ class Check(PropertyCheck):
                 else:
                     last = sky
                     r['sky'] = [list(sky.shape), canon_vals(sky.data.lon.deg), canon_vals(sky.data.lat.deg), bool(sky.isscalar)]
-                    b = attempt(lambda: PixCoord.from_sky(sky, wcss[step['wcs']], origin=step['origin'], mode=step['mode']))
+                    sky_in = sky.transform_to(mk_frame(step['frame'])) if step.get('frame') else sky
+                    b = attempt(lambda: PixCoord.from_sky(sky_in, wcss[step['wcs']], origin=step['origin'], mode=step['mode']))
                     r['back'] = b if is_err(b) else canon_pc(b)
             elif op == 'from_sky':
-                b = attempt(lambda: PixCoord.from_sky(last, wcss[step['wcs']], origin=step['origin'], mode=step['mode']))
+                sky_in = last.transform_to(mk_frame(step['frame'])) if step.get('frame') else last
+                b = attempt(lambda: PixCoord.from_sky(sky_in, wcss[step['wcs']], origin=step['origin'], mode=step['mode']))
                 r['res'] = b if is_err(b) else canon_pc(b)
             elif op == 'edit':
                 def ed():
@@ -1114,6 +1161,8 @@ class Check(PropertyCheck):
             if op == 'to_sky':
                 w = case['wcss'][step['wcs']]
                 fx, fy, lon, lat = self._sky_eval(w, step['mode'], step['origin'], st['x'], st['y'])
+                if step.get('frame'):
+                    lon, lat = via_frame(w, lon, lat, step['frame'], w)
                 bx, by = self._pix_eval(w, step['mode'], lon, lat)
                 reqs.append({'op': 'pc.to_fits', 'p': pj, 'origin': step['origin'], 'all': step['mode'] == 'all'})
                 reqs.append({'op': 'pc.from_fits', 'shape': st['shape'], 'x': bx, 'y': by, 'origin': step['origin'],
@@ -1121,6 +1170,8 @@ class Check(PropertyCheck):
             elif op == 'from_sky':
                 ls, lst = last
                 _, _, lon, lat = self._sky_eval(case['wcss'][ls['wcs']], ls['mode'], ls['origin'], lst['x'], lst['y'])
+                if step.get('frame'):
+                    lon, lat = via_frame(case['wcss'][ls['wcs']], lon, lat, step['frame'], case['wcss'][step['wcs']])
                 bx, by = self._pix_eval(case['wcss'][step['wcs']], step['mode'], lon, lat)
                 reqs.append({'op': 'pc.from_fits', 'shape': lst['shape'], 'x': bx, 'y': by, 'origin': step['origin'],
                              'all': step['mode'] == 'all'})
@@ -1189,10 +1240,10 @@ class Check(PropertyCheck):
                 for a, b in zip(lat, m['lat']):
                     if not (abs(float(num(a)) - b) <= 1e-9):
                         return False
-                if not close_pc(r['back'], m['back'], scale):
+                if not close_pc(r['back'], m['back'], max(scale, rt_tol(case['wcss'][step['wcs']], 'wcs') / Fraction(TOL))):
                     return False
             elif op == 'from_sky':
-                if not close_pc(r['res'], m['res'], scale):
+                if not close_pc(r['res'], m['res'], max(scale, rt_tol(case['wcss'][step['wcs']], 'wcs') / Fraction(TOL))):
                     return False
             elif op == 'edit':
                 if 'edit' in r or not same_pc(r['state'], m['state']):
@@ -1261,7 +1312,7 @@ class Check(PropertyCheck):
                 if is_err(b):
                     bad('from_sky_raised', b, i)
                 elif b['shape'] != S or b['scalar'] != (S == []) or \
-                        not all(abs(num(u) - v) <= rt_tol(case['wcss'][step['wcs']], step['mode']) for u, v in zip(b['x'] + b['y'], X + Y)):
+                        not all(abs(num(u) - v) <= rt_tol(case['wcss'][step['wcs']], step['mode'], step.get('frame')) for u, v in zip(b['x'] + b['y'], X + Y)):
                     bad('sky_roundtrip_values', f"back x={[float(num(v)) for v in b['x'][:4]]} y={[float(num(v)) for v in b['y'][:4]]} "
                         f"start x={[float(v) for v in X[:4]]} y={[float(v) for v in Y[:4]]} origin={step['origin']} mode={step['mode']}", i)
             elif op == 'from_sky':
@@ -1275,7 +1326,7 @@ class Check(PropertyCheck):
                     # same WCS: the pixel position in the other origin convention is shifted by the origin difference
                     sh = step['origin'] - ls['origin']
                     ex, ey = [v + sh for v in lst['x']], [v + sh for v in lst['y']]
-                    if b['shape'] != lst['shape'] or not all(abs(num(u) - v) <= max(rt_tol(case['wcss'][step['wcs']], step['mode']), rt_tol(case['wcss'][ls['wcs']], ls['mode'])) for u, v in zip(b['x'] + b['y'], ex + ey)):
+                    if b['shape'] != lst['shape'] or not all(abs(num(u) - v) <= max(rt_tol(case['wcss'][step['wcs']], step['mode'], step.get('frame')), rt_tol(case['wcss'][ls['wcs']], ls['mode'])) for u, v in zip(b['x'] + b['y'], ex + ey)):
                         bad('from_sky_origin_shift', f"x={[float(num(v)) for v in b['x'][:4]]} expected {[float(v) for v in ex[:4]]}", i)
             elif op == 'edit':
                 if 'edit' in r:
@@ -1660,7 +1711,8 @@ class Check(PropertyCheck):
             if is_err(sky):
                 return {'sky': sky}
             out['sky'] = [list(sky.shape), canon_vals(sky.data.lon.deg), canon_vals(sky.data.lat.deg), bool(sky.isscalar)]
-            back = attempt(lambda: PixCoord.from_sky(sky, wcs, origin=o, mode=mode))
+            sky_in = sky.transform_to(mk_frame(case['sky_frame'])) if case.get('sky_frame') else sky
+            back = attempt(lambda: PixCoord.from_sky(sky_in, wcs, origin=o, mode=mode))
             out['back'] = back if is_err(back) else canon_pc(back)
             out['start'] = canon_pc(p)
             return out
@@ -1698,7 +1750,8 @@ class Check(PropertyCheck):
         fx = np.array([float(v + sh) for v in xs], dtype=float)
         fy = np.array([float(v + sh) for v in ys], dtype=float)
         lon, lat = wcs_fwd(wcs, case['wcs'], case['mode'], fx, fy)
-        bx, by = wcs_inv(wcs, case['wcs'], case['mode'], lon, lat)
+        lon_w, lat_w = (lon, lat) if not case.get('sky_frame') else via_frame(case['wcs'], lon, lat, case['sky_frame'], case['wcs'])
+        bx, by = wcs_inv(wcs, case['wcs'], case['mode'], lon_w, lat_w)
         return s, [frac(v) for v in fx], [frac(v) for v in fy], list(lon), list(lat), [frac(v) for v in bx], [frac(v) for v in by]
 
     def requests(self, case):
@@ -1914,7 +1967,7 @@ class Check(PropertyCheck):
                     return False
             if len(lon) != len(model['lon']):
                 return False
-            return close_pc(real['back'], model['back'], coord_scale(case['p']))
+            return close_pc(real['back'], model['back'], max(coord_scale(case['p']), rt_tol(case['wcs'], 'wcs') / Fraction(TOL)))
         return False
 
     # ================================================================ oracle (property, first principles)
@@ -2163,7 +2216,17 @@ class Check(PropertyCheck):
             if is_err(b):
                 bad('from_sky_raised', b)
                 return V
-            check_pc('sky_roundtrip', b, st['shape'], fr(st['x']), fr(st['y']), rt_tol(case['wcs'], case['mode']))
+            n0 = len(V)
+            # independent expectation for from_sky: the positions transformed to the WCS frame by astropy, then wcslib
+            par = self._wcs_param(case)
+            sh = 1 - case['origin']
+            check_pc('from_sky_position', b, st['shape'], [Fraction(v) - sh for v in par[5]], [Fraction(v) - sh for v in par[6]],
+                     rt_tol(case['wcs'], case['mode']))
+            check_pc('sky_roundtrip', b, st['shape'], fr(st['x']), fr(st['y']), rt_tol(case['wcs'], case['mode'], case.get('sky_frame')))
+            for v in V[n0:]:
+                v['detail'] += (f" [positions handed over in {case.get('sky_frame')}, WCS {case['wcs']['ctype']} radesys={case['wcs'].get('radesys')} "
+                                f"equinox={case['wcs'].get('equinox')} cdelt={float(Fraction(case['wcs']['cdelt'][1])) * 3600:.3g} arcsec/px "
+                                f"origin={case['origin']} mode={case['mode']}]")
             return V
         return V
 
